@@ -54,6 +54,10 @@ class PropNode(Node):
         self.__dict__["_tickets"] = self.__dict__.get("_tickets", 0) + 1
         return self.__dict__["_tickets"]
 
+    def describe(self):
+        """An ordinary method of the target's class: read through a link it is the TARGET's bound method, each time anew."""
+        return "described %s" % (self.name,)
+
     def __getattr__(self, name):
         # computed defaults for names that are stored nowhere; every question is recorded
         if name.startswith("dyn_"):
@@ -155,6 +159,18 @@ def check_table(world, ctx):
         asked = base.__dict__.get("_asked", [])
         if answer != "dyn_q#%d" % (asked0 + 1) or len(asked) != asked0 + 1:
             raise Violation("forwarded-read-evaluated-once", "%s: reading a computed default through link %d gave %r; the target was asked %d time(s)" % (ctx, label, answer, len(asked) - asked0))
+        # methods of the target's class: the link hands out the target's bound method - and whatever replaces it later
+        bound = node.describe
+        if getattr(bound, "__self__", None) is not base or bound() != base.describe():
+            raise Violation("forwarded-read-evaluated-once", "%s: a method read through link %d is not the target's bound method" % (ctx, label))
+        setattr(base, "describe", "data now")
+        try:
+            if node.describe != "data now" or "describe" in vars(node):
+                raise Violation("attribute-table", "%s: after the target's attribute 'describe' was assigned, link %d still answers %r (own dict: %r)" % (ctx, label, node.describe, sorted(vars(node))))
+        finally:
+            del base.__dict__["describe"]
+        if getattr(node.describe, "__self__", None) is not base:
+            raise Violation("attribute-table", "%s: after the target's instance attribute was deleted again, link %d does not answer with the method" % (ctx, label))
         if hasattr(node, "undefined_everywhere") or len(base.__dict__.get("_asked", [])) != asked0 + 1:
             raise Violation("forwarded-read-evaluated-once", "%s: a name defined nowhere is reported as present through link %d" % (ctx, label))
     for node in world.nodes:
